@@ -6,6 +6,7 @@ import Gen.cz_rc
 import Gen.lt_asmens
 import Props.C12d
 import Props.C11data.my_bp_link
+import Props.C11data.id_loc_link
 /-!
 # C12 (value consistency, part 3, continued) — my.nric, id.nik, gr.amka, kr.rrn, cz.rc, lt.asmens
 -/
@@ -115,7 +116,11 @@ theorem id_nik_birth_date (x v : Str) (minyear : Int) (d : Date) (h : Gen.id_nik
       try_simp at hd
       cases hcb : e.caughtBy Exc.valueError <;> cases hcb2 : e2.caughtBy Exc.valueError <;> simp [hcb, hcb2] at hd
 
-/- (`validate` looks the registration place up in the embedded registry `id/loc.dat`: no kernel-evaluated example) -/
+/- `validate` looks the registration place up in the embedded registry `id/loc.dat`: evaluated on the kernel-proved dump -/
+example : Gen.id_nik.validate (str% "3171011708450001") = .ok (str% "3171011708450001") := by
+  unfold Gen.id_nik.validate Gen.id_nik._check_registration_place
+  rw [Props.C11.Data.id_loc.db_eq]
+  decide +kernel
 example : Gen.id_nik.get_birth_date (str% "3171011708450001") 1920 = .ok ⟨1945, 8, 17⟩ := by decide +kernel
 
 /-! ## gr.amka : `DDMMYY`; 19YY if that is a calendar date, else 20YY -/
